@@ -307,6 +307,13 @@ def rule_k6(ctx):
             n += 1
             ins = [(b, t) for b, t in body.calls() if b in lp["body"] and mir.last_seg(mir.callee(t) or "") == "insert" and "HashMap" in (mir.callee(t) or "")]
             mine = {b for b, t in ins if {(r, tuple(p)) for (r, p) in body.trace_operand(t["args"][0])} & table}
+            for b, t in ins:
+                if b in mine:
+                    vs = body.trace_operand(t["args"][2])
+                    if not vs or not all(r[0] == "call" and r[2] == fid for (r, p) in vs):
+                        res.bad(Finding("K6", f["id"], "a table entry is not the value the resolver computed",
+                                        "the value entered into the table %s reads does not come from %s (it comes from %s): the table and the bound wires can disagree, "
+                                        "e.g. on the sign of a narrow signed const" % (mir.last_seg(fid), mir.last_seg(fid), sorted(str(r[:3]) for (r, p) in vs)[:3]), t["sp"]))
             if not mine:
                 res.bad(Finding("K6", f["id"], "resolved consts are never entered into the resolution table",
                                 "the loop resolves const definitions against a table it never extends: a const defined in terms of an earlier const cannot be resolved", rt["sp"]))
